@@ -2,7 +2,7 @@
    operation histories (the public API surface the harness drives). *)
 From stdpp Require Import base list option numbers.
 From RecordUpdate Require Import RecordUpdate.
-From Incr.Model Require Import Base Engine.
+From Incr.Model Require Import Base Live Engine.
 Local Open Scope Z_scope.
 
 (* ------------------------------------------------------------ observers (internal_observer.rs, state.rs, public.rs) *)
@@ -182,7 +182,8 @@ Definition run_on_update_handlers (n : nid) (nu : node_update) (now : Z) : M uni
 Definition stabilise_start (fuel : nat) : M unit :=
   modify (fun s => s <| st_status := Stabilising |>) ;;;
   add_new_observers fuel ;;;
-  unlink_disallowed_observers fuel.
+  unlink_disallowed_observers fuel ;;;
+  collect [].                       (* observers just unlinked may have been the last owners of subgraphs *)
 
 Definition stabilise_end : M unit :=
   modify (fun s => s <| stab_num := stab_num s + 1 |>) ;;;
@@ -225,7 +226,7 @@ Fixpoint stabilise_loop (fuel : nat) : M unit :=
     o <- rch_remove_min ;;
     match o with
     | None => ret tt
-    | Some n => recompute f n ;;; stabilise_loop f
+    | Some n => collect [ONode n] ;;; recompute f n ;;; stabilise_loop f
     end
   end.
 
@@ -258,7 +259,7 @@ Definition init_state (max_height : Z) (dbg : bool) : state :=
         (replicate (Z.to_nat (max_height + 1)) []) (max_height + 1) 0
         (replicate (Z.to_nat (max_height + 1)) []) (max_height + 1) 0 0
         NotStabilising 0 [] [] [] [] [] [] STop [] []
-        0 0 0 0 0 0 0 0 dbg [] 0%nat None.
+        0 0 0 0 0 0 0 0 dbg [] [] [] 0%nat None.
 
 (* ------------------------------------------------------------ histories *)
 Notation hnode := nat (only parsing).   (* index into the table of node handles *)
@@ -276,6 +277,8 @@ Inductive op :=
   | OpSetCutoff (n : hnode) (c : cutoff)       (* CPreserve's argument is a node handle *)
   | OpPair (a b : Z)                           (* var holding a pair; for map_ref *)
   | OpObserve (n : hnode)
+  | OpObserveExport (k : nat)                  (* observe exports[k mod len] (a fresh constant if there are none) *)
+  | OpMapExport (fid : Z) (k : nat)            (* map over exports[k mod len] (a constant if there are none) *)
   | OpCloneObs (o : oid)
   | OpDropObs (o : oid)
   | OpDisallow (o : oid)
@@ -294,6 +297,8 @@ Inductive op :=
   | OpIsStable
   | OpStats
   | OpSetMaxHeight (n : Z)
+  | OpDropNode (n : hnode)                     (* drop the program's handle (Incr clone) *)
+  | OpDropVar (x : vid)                        (* drop a public::Var handle *)
   | OpCrashAt (k : nat).                       (* arm the panic injection: k-th user invocation from now *)
 
 Inductive out :=
@@ -307,16 +312,17 @@ Inductive out :=
   | OutBool (b : bool)
   | OutStats (created changed recomputed invalidated became_nec became_unnec : Z).
 
+(* the interpreter's own state: subscription tokens handed out so far.  Node handles live in the
+   engine state ([handles]) because bind closures can hand nodes out (TExport). *)
 Record istate := IState {
-  hnodes : list nid;
   hsubs : list (oid * Z);
 }.
 
 (* replace node handles by the nodes they denote, throughout a bind closure *)
-Fixpoint handles_tinstr (tbl : list nid) (t : tinstr) : tinstr :=
+Fixpoint handles_tinstr (tbl : list (option nid)) (t : tinstr) : tinstr :=
   let so (o : operand) : operand :=
     match o with
-    | OOuter h => OOuter (default 0%nat (tbl !! h))
+    | OOuter h => OOuter (default 0%nat (mjoin (tbl !! h)))
     | OLocal d i => o
     end in
   match t with
@@ -327,9 +333,10 @@ Fixpoint handles_tinstr (tbl : list nid) (t : tinstr) : tinstr :=
   | TMapWithOld fid a => TMapWithOld fid (so a)
   | TFold fid init args => TFold fid init (so <$> args)
   | TCutoff tg c => TCutoff (so tg) c
+  | TExport o => TExport (so o)
   | TBind lhs f => TBind (so lhs) (handles_bindfn tbl f)
   end
-with handles_bindfn (tbl : list nid) (f : bindfn) : bindfn :=
+with handles_bindfn (tbl : list (option nid)) (f : bindfn) : bindfn :=
   match f with
   | BindFn effs ts =>
       BindFn effs ((fix go (ts : list (list tinstr * operand)) :=
@@ -338,19 +345,19 @@ with handles_bindfn (tbl : list nid) (f : bindfn) : bindfn :=
                       | (body, r) :: ts' =>
                           ((fix gob (b : list tinstr) := match b with [] => [] | t :: b' => handles_tinstr tbl t :: gob b' end) body,
                            match r with
-                           | OOuter h => OOuter (default 0%nat (tbl !! h))
+                           | OOuter h => OOuter (default 0%nat (mjoin (tbl !! h)))
                            | OLocal d i => r
                            end) :: go ts'
                       end) ts)
   end.
 
 Definition hnode_get (st : istate) (h : hnode) : M nid :=
-  match hnodes st !! h with Some n => ret n | None => panic (PModelGap 40) end.
+  s <- get ;; match handles s !! h with Some (Some n) => ret n | _ => panic (PModelGap 40) end.
 
 (* every node-creating op yields exactly one new node handle *)
 Definition step (fuel : nat) (st : istate) (o : op) : M (istate * out) :=
   let mk (m : M nid) : M (istate * out) :=
-    n <- m ;; ret (IState (hnodes st ++ [n]) (hsubs st), OutNode n) in
+    n <- m ;; modify (fun s => s <| handles := handles s ++ [Some n] |>) ;;; ret (st, OutNode n) in
   match o with
   | OpVar v =>
       (* State::var_in_scope (state.rs:193): the Var, then its watch node *)
@@ -392,7 +399,7 @@ Definition step (fuel : nat) (st : istate) (o : op) : M (istate * out) :=
           n <- create_node (KMap (Clo 0 0 [] true) [ca; cb]) ;;
           upd_node n (fun x => x <| n_cutoff := CPreserve ca |>) ;;; ret n)
   | OpBind lhs f =>
-      mk (l <- hnode_get st lhs ;; create_bind l (handles_bindfn (hnodes st) f))
+      mk (l <- hnode_get st lhs ;; s <- get ;; create_bind l (handles_bindfn (handles s) f))
   | OpSetCutoff h c =>
       n <- hnode_get st h ;;
       c' <- match c with
@@ -401,6 +408,18 @@ Definition step (fuel : nat) (st : istate) (o : op) : M (istate * out) :=
             end ;;
       upd_node n (fun x => x <| n_cutoff := c' |>) ;;; ret (st, OutUnit)
   | OpObserve h => n <- hnode_get st h ;; o <- observe n ;; ret (st, OutObs o)
+  | OpObserveExport k =>
+      s <- get ;;
+      match exports s !! (k mod length (exports s))%nat with
+      | Some n => o <- observe n ;; ret (st, OutObs o)
+      | None => n <- create_node (KConst (VInt 0)) ;; o <- observe n ;; ret (st, OutObs o)
+      end
+  | OpMapExport fid k =>
+      s <- get ;;
+      mk (match exports s !! (k mod length (exports s))%nat with
+          | Some n => create_node (KMap (Clo fid 0 [] false) [n])
+          | None => create_node (KConst (VInt 0))
+          end)
   | OpCloneObs o => upd_obs o (fun ob => ob <| o_handles := S (o_handles ob) |>) ;;; ret (st, OutUnit)
   | OpDropObs o =>
       (* impl Drop for Observer (public.rs:155): only the last clone disallows *)
@@ -413,8 +432,8 @@ Definition step (fuel : nat) (st : istate) (o : op) : M (istate * out) :=
   | OpSubscribe o h =>
       r <- subscribe o h ;;
       ret (match r with
-           | inl tok => (IState (hnodes st) (hsubs st ++ [(o, tok)]), OutTok r)
-           | inr _ => (IState (hnodes st) (hsubs st ++ [(o, -1)]), OutTok r)
+           | inl tok => (IState (hsubs st ++ [(o, tok)]), OutTok r)
+           | inr _ => (IState (hsubs st ++ [(o, -1)]), OutTok r)
            end)
   | OpUnsubscribe o sub =>
       match hsubs st !! sub with
@@ -440,6 +459,15 @@ Definition step (fuel : nat) (st : istate) (o : op) : M (istate * out) :=
       ret (st, OutStats (num_created s) (num_changed s) (num_recomputed s) (num_invalidated s)
                         (num_became_necessary s) (num_became_unnecessary s))
   | OpSetMaxHeight n => set_max_height_allowed n ;;; ret (st, OutUnit)
+  | OpDropNode h =>
+      modify (fun s => s <| handles := <[h := None]> (handles s) |>) ;;; ret (st, OutUnit)
+  | OpDropVar x =>
+      (* impl Drop for Var (public.rs:272): the last handle queues the var on dead_vars *)
+      v <- get_var x ;;
+      upd_var x (fun v => v <| v_handles := pred (v_handles v) |>) ;;;
+      (if bool_decide (v_handles v = 1%nat) then modify (fun s => s <| dead_vars := dead_vars s ++ [x] |>)
+       else ret tt) ;;;
+      ret (st, OutUnit)
   | OpCrashAt k =>
       modify (fun s => s <| crash_at := Some (inv_count s + k)%nat |>) ;;; ret (st, OutUnit)
   end.
@@ -459,8 +487,10 @@ Fixpoint run (fuel : nat) (ops : list op) (st : istate) (s : state)
                       | Panic t => (st, Panic t)
                       | OutOfFuel => (st, OutOfFuel)
                       end in
+    (* whatever the op did (including unwinding from a panic), its temporaries are gone now *)
+    let s1 := (collect [] s1).2 in
     (ro, rev (events s1), s1) :: run fuel ops' st' s1
   end.
 
 Definition run_history (fuel : nat) (max_height : Z) (dbg : bool) (ops : list op) :=
-  run fuel ops (IState [] []) (init_state max_height dbg).
+  run fuel ops (IState []) (init_state max_height dbg).
